@@ -24,6 +24,14 @@ func builtinGlobalEval(call FunctionCall) Value {
 		// Not a direct call to eval, so we enter the global ExecutionContext
 		rt.enterGlobalScope()
 		defer rt.leaveScope()
+	} else if rt.stackLimit != 0 {
+		// A direct eval runs in its caller's context, so no scope is entered and
+		// nothing else would stop eval code that evals itself.
+		rt.evalDepth++
+		defer func() { rt.evalDepth-- }()
+		if rt.scope != nil && rt.scope.depth+rt.evalDepth >= rt.stackLimit {
+			panic(rt.panicRangeError("Maximum call stack size exceeded"))
+		}
 	}
 	returnValue := rt.cmplEvaluateNodeProgram(program, true)
 	if returnValue.isEmpty() {
